@@ -162,6 +162,64 @@ class Matrix:
             ctx.validated(len(res))
         return res
 
+    def alternation_pass(self, envnames=("sync", "auto"), limit=None):
+        """HISTORY of argument kinds: for every logged application with plain-str arguments, the same
+        argument text arrives first as Markup and then as plain str (and the other way round) on the
+        long-lived environments.  Memo tables keyed on the argument (where Markup("x") == "x") would hand
+        the result of the first kind to the second.  To have a clean-history reference in the same
+        process, each direction is run with two fresh, equally long tokens appended to the str arguments:
+        result(plain T+a on an unseen key) must equal result(plain T+b after Markup(T+b)) up to renaming
+        b -> a; likewise for the Markup result after the plain one."""
+        from markupsafe import Markup
+        ctx = self.ctx
+        envs = {k: e for k, e in self.envs.items() if k in envnames}
+        n = 0
+        seen = set()
+        for (sig, name, value, args, names, fv, res, case, skip_async) in self.log:
+            if isinstance(args, dict):
+                items = list(args.items())
+                str_pos = [k for k, a in items if type(a) is str]
+            else:
+                str_pos = [i for i, a in enumerate(args) if type(a) is str]
+            key = (name, repr(args)[:80], type(value).__name__)
+            if not str_pos or key in seen:
+                continue
+            seen.add(key)
+            if limit is not None and n >= limit:
+                break
+            n += 1
+
+            def with_tok(tok, wrap):
+                def conv(a):
+                    return wrap(a + tok) if type(a) is str else a
+                if isinstance(args, dict):
+                    return {k: conv(a) for k, a in args.items()}
+                return tuple(conv(a) for a in args)
+            t = [f"\u046f{n}{c}" for c in "\u0471\u0473\u0475\u0477"]    # differ in one rare letter that no test value contains
+            ident = (lambda x: x)
+            plain_clean = self.ways(envs, name, value, with_tok(t[0], ident), names, fv)
+            self.ways(envs, name, value, with_tok(t[1], Markup), names, fv)
+            plain_after = self.ways(envs, name, value, with_tok(t[1], ident), names, fv)
+            self.ways(envs, name, value, with_tok(t[2], ident), names, fv)
+            markup_after = self.ways(envs, name, value, with_tok(t[2], Markup), names, fv)
+            markup_clean = self.ways(envs, name, value, with_tok(t[3], Markup), names, fv)
+            ctx.count("matrix_alternation")
+            ctx.case(key=("alternation", name, repr(args)[:60]))
+            bad = None
+            for w in plain_clean:
+                if plain_after[w].replace(t[1], t[0]) != plain_clean[w]:
+                    bad = (f"a plain-str argument gives {plain_after[w][:70]} after the same text was passed as Markup, "
+                           f"but {plain_clean[w][:70]} on a clean history ({w})")
+                    break
+                if markup_after[w].replace(t[2], t[3]) != markup_clean[w]:
+                    bad = (f"a Markup argument gives {markup_after[w][:70]} after the same text was passed as plain str, "
+                           f"but {markup_clean[w][:70]} on a clean history ({w})")
+                    break
+            if bad:
+                ctx.reject(dict(case, history="same argument text as Markup and as str"), bad, None)
+            else:
+                ctx.validated()
+
     def history_pass(self, every_fresh=9):
         """second pass on the same environments in reverse order + a sample on fresh environments:
         a result must not depend on what was applied before"""
